@@ -8,7 +8,8 @@ EXTENDS CamxLayout, Json, IOUtils
 Chars(s) == s   \* names are given as sequences of one-character strings
 NameSets == { << <<"O","3">> >>, << <<"N","O","2">>, <<"O","3">> >>,
               << <<"A","B","C","D","E","F","G","H","I","J">>, <<"X">>, <<"N","O">> >> }
-Starts == { <<1999, 365, 22>>, <<2000, 59, 23>>, <<1970, 1, 0>>, <<2069, 364, 21>>, <<2011, 365, 23>>, <<2004, 366, 22>>, <<2011, 182, 5>> }
+Starts == { <<1999, 365, 22>>, <<2000, 59, 23>>, <<1970, 1, 0>>, <<2069, 364, 21>>, <<2011, 365, 23>>, <<2004, 366, 22>>, <<2011, 182, 5>>,
+            <<2000, 365, 23>> }   \* the last one ends on day 366 of a leap year
 Grids == { <<1, 1, 1>>, <<2, 1, 1>>, <<1, 2, 2>>, <<2, 2, 1>>, <<3, 2, 2>>, <<2, 3, 1>> }
 Quick == IOEnv.PNC_CAMX_SCALE = "quick"
 ConfigsAll ==
@@ -64,7 +65,7 @@ MetConfigs ==
      iproj |-> 2, istag |-> 0, tlat1 |-> 33, tlat2 |-> 45, h24 |-> h] :
       sp \in (IF Quick THEN { << <<"O","3">> >>, << <<"N","O","2">>, <<"O","3">> >> } ELSE NameSets),
       g \in { <<2, 2, 1>>, <<3, 2, 2>>, <<2, 3, 1>> }, nt \in 1..3, h \in (IF Quick THEN {FALSE} ELSE BOOLEAN),
-      st \in { <<1999, 365, 22>>, <<2000, 59, 23>>, <<2011, 182, 5>> } }
+      st \in { <<1999, 365, 22>>, <<2000, 59, 23>>, <<2011, 182, 5>>, <<2004, 365, 22>>, <<2004, 366, 22>> } }
 \* large files (truncation of realistic sizes): compact emission, no cut enumeration
 BigConfigs ==
   { [fmt |-> "uamiv", name |-> <<"A","V","E","R","A","G","E">>, note |-> <<"b","i","g">>, itzon |-> 0,
